@@ -1975,7 +1975,50 @@ func c13Linked(p *core.Program, r *core.Report, t *types.Named, rule string) {
 			return true
 		})
 		if via != "" {
-			r.OK(rule, tn+"."+fi.Obj.Name()+" (through "+via+")", p.Pos(fi.Decl.Pos()), "delegates the list surgery to a function judged by this rule")
+			// an operation that is handed a node to remove removes it: a way out that skips the surgery
+			// must have found that there is no node (the parameter is nil), not merely that the node's own
+			// links are nil — the only node of a list has no neighbours either
+			bad := ""
+			if strings.HasPrefix(fi.Obj.Name(), "Remove") && fi.Decl.Type.Params.NumFields() == 1 && len(fi.Decl.Type.Params.List[0].Names) == 1 {
+				pn := fi.Decl.Type.Params.List[0].Names[0].Name
+				if _, isPtr := fi.Pkg.TypesInfo.TypeOf(fi.Decl.Type.Params.List[0].Type).(*types.Pointer); isPtr {
+					ps, over := simplePaths(fi, func(n ast.Node) []paths.Event {
+						var out []paths.Event
+						ast.Inspect(n, func(m ast.Node) bool {
+							if call, ok := m.(*ast.CallExpr); ok {
+								if fn := calleeFunc(fi.Pkg.TypesInfo, call); fn != nil && checkedFns[fn] {
+									out = append(out, paths.Event{Kind: "SURGERY", Pos: call.Pos()})
+								}
+							}
+							return true
+						})
+						return out
+					})
+					if !over {
+						for _, pa := range ps {
+							if pa.Has("SURGERY") || pa.Has("PANIC") {
+								continue
+							}
+							isNil, byLinks := false, false
+							for _, e := range pa {
+								if e.Kind != "COND" {
+									continue
+								}
+								if e.Arg == cc(pn, "==", "nil", true) {
+									isNil = true
+								}
+								if strings.Contains(e.Arg, pn+".prev") || strings.Contains(e.Arg, pn+".next") {
+									byLinks = true
+								}
+							}
+							if !isNil && byLinks {
+								bad = "a path returns without unlinking the node it was handed because the node's own links are nil (" + pa.String() + "): the only node of a list has no neighbours either, so it stays in the list"
+							}
+						}
+					}
+				}
+			}
+			r.Check(bad == "", rule, tn+"."+fi.Obj.Name()+" (through "+via+")", p.Pos(fi.Decl.Pos()), "delegates the list surgery to a function judged by this rule", bad)
 		}
 	}
 }
